@@ -2221,6 +2221,14 @@ func (s *Server) ServeConn(c net.Conn) error {
 	// handed to ServeConn directly.
 	s.setState(c, StateNew)
 
+	// TimeoutHandler bounds the handlers it runs with concurrencyCh, which
+	// Serve creates; without it every wrapped call would be answered with 429.
+	s.mu.Lock()
+	if s.concurrencyCh == nil {
+		s.concurrencyCh = make(chan struct{}, s.getConcurrency())
+	}
+	s.mu.Unlock()
+
 	if !s.tryAcquireConcurrency() {
 		s.writeFastError(c, StatusServiceUnavailable, "The connection cannot be served because Server.Concurrency limit exceeded")
 		c.Close()
